@@ -168,6 +168,14 @@ ExtPath(W, home, types, p, vis) ==
     ELSE UNION {ExtPath(W, HomeOf(y, home), types, Append(p, y), vis \cup {y}) : y \in nxt}
 RelPaths(W, x, types) ==
   UNION {ExtPath(W, HomeOf(t, x[1]), types, <<t>>, {x, t}) : t \in Related(W, x, x[1], types) \ {x}}
+\* relation_paths(end=e): the simple paths that stop when they first reach e
+RECURSIVE EndPath(_, _, _, _, _, _)
+EndPath(W, home, types, p, vis, e) ==
+  IF Last(p) = e THEN {p}
+  ELSE LET nxt == Related(W, Last(p), home, types) \ vis IN
+         UNION {EndPath(W, HomeOf(y, home), types, Append(p, y), vis \cup {y}, e) : y \in nxt}
+EndPaths(W, x, types, e) ==
+  UNION {EndPath(W, HomeOf(t, x[1]), types, <<t>>, {x, t}, e) : t \in Related(W, x, x[1], types) \ {x}}
 \* the same for senses (no expansion)
 SenseRelated(W, s, types) == {TargetOf(r) : r \in OwnSenseRows(W, s, types)}
 RECURSIVE SenseReach(_, _, _, _)
